@@ -54,7 +54,7 @@ def resolveRenamed (crate : Str) (r : Renames) (imports : List ImportedType) (id
     | none => renameOf r id crate
 
 mutual
-  /-- `check_type`: `Simple` ids and (since the `fix:` commit 821da1d) the head of a `Generic`
+  /-- `check_type`: `Simple` ids and (since the `fix:` commit 944b749) the head of a `Generic`
   application are rewritten -/
   def checkType (crate : Str) (r : Renames) (imports : List ImportedType) : RustType → RustType
     | .generic id ps => match resolveRenamed crate r imports id with
